@@ -555,6 +555,49 @@ func runC19(r *Run) {
 			}
 		})
 	}
+	// a second wave, long after the burst: holders that keep their tokens longer than the backlog timeout; an early
+	// waiter gives up (legitimately: nothing was released in its time); a newcomer queues after that and IS within
+	// its timeout when the holders release - it must be served
+	newcomer, newcomerOK := false, false
+	if cfg.Ordering != "random" && cfg.Timeout == time.Second && t.Chance(40, "timed-out-waiter-then-newcomer") {
+		newcomer = true
+		t0 := 20 * time.Second
+		for h := 0; h < cfg.Limit; h++ {
+			s.Go("long-holder", func(tk *Task) {
+				tk.Sleep(t0)
+				l, ok := sc.st.Lim.Acquire(sc.st.PartCtx(tk.Ctx, ""))
+				if !ok || l == nil {
+					return // (the serial caller may hold a token around t0; the wave then simply has fewer holders)
+				}
+				sc.st.Out.Add(1)
+				tk.Sleep(1500 * ms)
+				tk.Begin("complete", "success")
+				sc.st.Out.Add(-1)
+				l.OnSuccess()
+				tk.End(nil)
+			})
+		}
+		s.Go("impatient-waiter", func(tk *Task) {
+			tk.Sleep(t0 + ms)
+			if l, ok := sc.st.Lim.Acquire(sc.st.PartCtx(tk.Ctx, "")); ok && l != nil {
+				l.OnIgnore() // granted after all (fewer holders than the limit)
+			}
+		})
+		s.Go("newcomer", func(tk *Task) {
+			tk.Sleep(t0 + 1200*ms)
+			tk.Begin("acquire", "newcomer")
+			l, ok := sc.st.Lim.Acquire(sc.st.PartCtx(tk.Ctx, ""))
+			tk.End(ok)
+			if ok && l != nil {
+				newcomerOK = true
+				sc.st.Out.Add(1)
+				tk.Begin("complete", "success")
+				sc.st.Out.Add(-1)
+				l.OnSuccess()
+				tk.End(nil)
+			}
+		})
+	}
 	s.OnQuiescent = func() {
 		if out := sc.st.Out.Load(); out > int64(cfg.Limit) {
 			s.Fail("over-admission", cfg.Key(), "%d tokens are held at once but the pool limit is %d [%s]", out, cfg.Limit, cfg)
@@ -585,6 +628,13 @@ func runC19(r *Run) {
 		}
 		if loopers > 0 {
 			r.Probe("looping_callers")
+		}
+		if newcomer {
+			r.Probe("newcomer_after_a_timed_out_waiter")
+			if !newcomerOK {
+				s.Fail("caller-refused", cfg.Key()+"/after-timed-out-waiter", "holders took their tokens at 20 s and release them at 21.5 s; a waiter that queued at 20.001 s gave up after its 1 s backlog timeout; a newcomer queued at 21.2 s and was refused although the release at 21.5 s is well within its timeout [%s]", cfg)
+				return
+			}
 		}
 		if serialDone != serialRounds {
 			s.Fail("caller-never-served", cfg.Key(), "the serial caller completed %d of %d rounds and is stuck although nobody else uses the pool [%s]", serialDone, serialRounds, cfg)
